@@ -9,9 +9,174 @@ RULE = ("stories = hand-picked same-turn/close-window scenarios + (thorough) eve
         "within a story of at least 8 labelled callbacks; distinct by label sequence")
 
 
+def crowd_probe(n, victim_action):
+    """`n` connection objects start their (hanging) connect at the same time; the attempt of the LAST one is cancelled (or the object is
+    force-disconnected) while all the others are still in flight; then the others are closed. The victim's one attempt is over:
+    a second start_connection() on it must be refused, it must not move towards connected again, and after a force_disconnect it
+    reads CLOSED from then on. Returns a list of problems."""
+    import asyncio
+    from vlib import simnet
+
+    async def go(loop):
+        from aioesphomeapi.connection import APIConnection, ConnectionParams, ConnectionState as S
+        from aioesphomeapi.zeroconf import ZeroconfManager
+        net = simnet.Net(loop)
+        net.connect_script = ["hang"] * n
+        problems = []
+        with net.patched():
+            conns, tasks = [], []
+            for k in range(n):
+                params = ConnectionParams(addresses=[f"10.0.0.{k + 1}"], port=6053, password=None, client_info="v", keepalive=20.0,
+                                          zeroconf_manager=ZeroconfManager(), noise_psk=None, expected_name=None)
+                c = APIConnection(params, lambda e: None, False, None)
+                conns.append(c)
+                tasks.append(asyncio.ensure_future(c.start_connection()))
+            await simnet.drain(loop)
+            victim, vtask = conns[-1], tasks[-1]
+            if victim_action == "cancel":
+                vtask.cancel()
+            else:
+                victim.force_disconnect()
+            await simnet.drain(loop)
+            seen = [victim.connection_state.name]
+            for c, t in zip(conns[:-1], tasks[:-1]):
+                c.force_disconnect()
+            await simnet.drain(loop)
+            seen.append(victim.connection_state.name)
+            if victim_action == "force" and seen != ["CLOSED", "CLOSED"]:
+                problems.append(f"force_disconnect() on a connection whose start was in flight beside {n - 1} others: state read {seen}")
+            for t in tasks:
+                if not t.done():
+                    t.cancel()
+            await simnet.drain(loop)
+            # the second attempt on the used object (the network would let it through)
+            del net.connect_script[:]
+            try:
+                await asyncio.wait_for(victim.start_connection(), 400)
+                problems.append(f"{victim_action} of a start that was in flight beside {n - 1} other connections: a SECOND start_connection() on the same object "
+                                f"was accepted (state now {victim.connection_state.name}; states read after the {victim_action}: {seen})")
+            except BaseException as e:  # noqa: BLE001
+                if isinstance(e, (KeyboardInterrupt, SystemExit)):
+                    raise
+            if victim_action == "force" and victim.connection_state is not S.CLOSED:
+                problems.append(f"closed connection left CLOSED: {victim.connection_state.name}")
+            for c in conns:
+                c.force_disconnect()
+            await simnet.drain(loop)
+        return problems
+    return simnet.run(go)
+
+
+def stale_awaitable_probe(phase):
+    """Two awaitables of the same connect phase are taken from one object at the same moment; the first is awaited and the session
+    established; then the second is awaited. Whenever the second is looked at, the object has already been used: the second must be
+    refused and the visible state must not move (CONNECTED stays CONNECTED, is_connected stays True). Also: an awaitable taken
+    before force_disconnect() and run afterwards must not open a socket for the closed object. Returns a list of problems."""
+    import asyncio
+    from vlib import simnet
+
+    async def go(loop):
+        from aioesphomeapi import api_pb2 as pb
+        from aioesphomeapi.connection import APIConnection, ConnectionParams
+        from aioesphomeapi.zeroconf import ZeroconfManager
+        problems = []
+
+        def mk():
+            params = ConnectionParams(addresses=["10.0.0.1"], port=6053, password=None, client_info="v", keepalive=20.0,
+                                      zeroconf_manager=ZeroconfManager(), noise_psk=None, expected_name=None)
+            return APIConnection(params, lambda e: None, False, None)
+
+        async def swallow(aw):
+            try:
+                await aw
+                return "ok"
+            except BaseException as e:  # noqa: BLE001
+                if isinstance(e, (KeyboardInterrupt, SystemExit)):
+                    raise
+                return type(e).__name__
+        net = simnet.Net(loop)
+        with net.patched():
+            c = mk()
+            stale = None
+            try:
+                if phase == "start":
+                    first, stale = c.start_connection(), c.start_connection()
+                    await first
+                    fin = asyncio.ensure_future(c.finish_connection(login=False))
+                else:
+                    await c.start_connection()
+                    first, stale = c.finish_connection(login=False), c.finish_connection(login=False)
+                    fin = asyncio.ensure_future(first)
+            except BaseException as e:  # noqa: BLE001  (refusing the second request on the spot is as good)
+                if stale is None and not isinstance(e, RuntimeError):
+                    raise
+                return problems
+            await simnet.drain(loop)
+            net.transports[-1].feed(simnet.plain_msg(pb.HelloResponse(api_version_major=1, api_version_minor=10, name="dev")))
+            await simnet.drain(loop)
+            await fin
+            before = (c.connection_state.name, c.is_connected, len(net.sockets), len(net.transports))
+            t = asyncio.ensure_future(swallow(stale))
+            seen = set()
+            for _ in range(40):
+                await simnet.drain(loop)
+                seen.add((c.connection_state.name, c.is_connected))
+                if t.done():
+                    break
+            if not t.done():
+                t.cancel()
+                await simnet.drain(loop)
+            after = (c.connection_state.name, c.is_connected, len(net.sockets), len(net.transports))
+            if seen != {("CONNECTED", True)} or after != before or (t.done() and not t.cancelled() and t.result() == "ok"):
+                problems.append(f"second {phase}_connection() awaitable of an object, awaited after the session was established: outcome "
+                                f"{t.result() if t.done() and not t.cancelled() else 'pending'}, (state, is_connected) read meanwhile {sorted(seen)}, "
+                                f"(state, is_connected, sockets, transports) {before} -> {after}")
+            c.force_disconnect()
+            await simnet.drain(loop)
+            # requested before the close, run after it
+            c2 = mk()
+            n_s = len(net.sockets)
+            aw = c2.start_connection()
+            c2.force_disconnect()
+            out = await swallow(aw)
+            await simnet.drain(loop)
+            if out == "ok" or len(net.sockets) != n_s or c2.connection_state.name != "CLOSED":
+                problems.append(f"start_connection() requested before force_disconnect() and awaited after it: outcome {out}, {len(net.sockets) - n_s} socket(s) opened "
+                                f"for the closed object, state {c2.connection_state.name}")
+        return problems
+    return simnet.run(go)
+
+
 def run(rep, tier, seed):
     connfamily.run(rep, tier, seed, "C05", VFILE, RULE)
+    for phase in ("start", "finish"):
+        problems = stale_awaitable_probe(phase)
+        rep.case(("stale-awaitable", phase), True, sample={"stale_awaitable": phase, "problems": problems})
+        rep.bump("probe:stale-awaitable")
+        if problems:
+            rep.violation("C05/one-attempt", problems[0], {"kind": "stale-awaitable", "phase": phase})
+    for n in ((2, 9, 12) if tier == "quick" else (2, 5, 8, 9, 10, 17, 33, 70)):
+        for action in ("cancel", "force"):
+            problems = crowd_probe(n, action)
+            rep.case(("crowd", n, action), True, sample={"crowd": n, "victim": action, "problems": problems})
+            rep.bump("probe:crowd")
+            if problems:
+                rep.violation("C05/one-attempt", problems[0], {"kind": "crowd", "n": n, "action": action})
 
 
 def replay(path):
+    import json
+    d = json.loads(open(path).read())["replay"]
+    if d.get("kind") == "stale-awaitable":
+        from vlib import common
+        common.setup_impl_path()
+        problems = stale_awaitable_probe(d["phase"])
+        print(problems)
+        return 1 if problems else 0
+    if d.get("kind") == "crowd":
+        from vlib import common
+        common.setup_impl_path()
+        problems = crowd_probe(d["n"], d["action"])
+        print(problems)
+        return 1 if problems else 0
     return connfamily.replay(path, "C05")
